@@ -1,50 +1,31 @@
 #!/usr/bin/env python3
-"""Regenerate MANIFEST.json from the table below (python3 tools/gen_manifest.py)."""
+"""Regenerate MANIFEST.json (python3 tools/gen_manifest.py).
+
+A property is claimed iff lenaverif/props/meta/<ID>.json exists (keys: technique, level_text,
+level_note, design_ref, category) together with lenaverif/props/<id>.py.  Everything else is listed
+under not_applicable with the reason from tools/not_applicable.json (or "not built yet").
+"""
 import json, os
 HERE = os.path.dirname(os.path.dirname(os.path.abspath(__file__)))
-TITLES = {}
-for line in open(os.path.join(HERE, "properties.jsonl")):
-    p = json.loads(line)
-    TITLES[p["id"]] = p["title"]
-
-# id -> (technique, level text, level note, design ref)
-CHECKS = {
- "C17": ("TLA+ pull/yield machine of Slice (7 negative-index branches + islice) checked by TLC against PySlice; "
-         "all terminal states exported and replayed on lena.flow.Slice.run/fill_into; recorded runs validated by Trace_Slice.tla",
-         "TLC proves machine = Python slicing for start,stop in {None,-7..7}, step in {None,1..4}, n<=10 (14080 scenarios) and "
-         "every one of them is executed on the real Slice (run, three argument forms, fill_into with stop-safety), plus "
-         "Reverse/Chain/CountFrom/RunningChunkBy machines; random larger cases are trace-validated.",
-         "Trusts TLC, the JSON export and the replay harness; flows are integer ranges (values identify positions).",
-         "DESIGN.md 5 C17"),
- "C01": ("TLA+ coroutine machine of a Sequence (Flow.tla) = declarative composition Sem (FlowSem.tla) checked by TLC; "
-         "all terminal states replayed on real Sequence/nested Sequence/Source in every bracketing; random programs trace-validated (Trace_Flow.tla)",
-         "TLC checks machine output = left-to-right composition, regrouping, empty identity and build-time rejection for all programs "
-         "<= 2 (thorough 3) stages over a 19-stage alphabet x flows <= 4 x {bare, pairs}; each scenario is executed on the real code in "
-         "every bracketing and as a Source tail; 300+ random deeper programs are validated against Sem by TLC.",
-         "Contexts are abstracted to their top-level keys; harness callables (inc/dbl/tag) stand for user callables.",
-         "DESIGN.md 5 C01"),
- "C02": ("TLC: the Flow.tla coroutine machine is the laziest allowed schedule (pulls = MinNeed at every delivery, no work before demand, "
-         "buffer bounds, liveness of Slice(n) after an infinite source); real pipelines on an instrumented iterator must never pull more "
-         "than the machine at any delivery / stop point; negative Slice bound through Slice.tla; pull vectors trace-validated",
-         "Exhaustive over streaming programs <= 2 (thorough 3) stages x finite and infinite sources x every consumer stop point; real "
-         "pull counts compared with the machine's at each delivery (inequality), weak-reference liveness for negative Slice.",
-         "The laziest-allowed schedule is the spec machine (islice consumes to stop, Count one look-ahead, Split one block).",
-         "DESIGN.md 5 C02"),
- "C03": ("TLA+ scheduler machine of Split.run (active list + index, Split.tla) = declarative block/branch semantics SplitSem checked by TLC "
-         "with bufsize-independence, once-only and accounting invariants; every scenario replayed on the real Split (both copy_buf), "
-         "common-type methods and Zip along SplitCT.tla behaviours; random configurations trace-validated (Trace_Split.tla)",
-         "Exhaustive over branch lists <= 2 (thorough 3; 4 by simulation) of 13 tagged branch kinds (Source, fill/compute and fill/request with "
-         "LenaStopFill at every index, map, filter, run element with end marker) x flows <= 4 (6) x bufsize {1,2,3,5,1000,None}; "
-         "each replayed on lena.core.Split.run; 600+ random 5-branch configurations validated by TLC.",
-         "Branches are harness elements with tagged outputs; laziness inside a block belongs to C02, FillRequest internals to C16.",
-         "DESIGN.md 5 C03"),
-}
+META = os.path.join(HERE, "lenaverif", "props", "meta")
+IDS = [json.loads(l)["id"] for l in open(os.path.join(HERE, "properties.jsonl")) if l.strip()]
 NOT_YET = "check not built yet in this round (planned, see DESIGN.md section 5)"
 
+
 def main():
-    checks = []
-    for pid in sorted(CHECKS):
-        tech, text, note, ref = CHECKS[pid]
+    checks, claimed = [], []
+    na_reasons = {}
+    p = os.path.join(HERE, "tools", "not_applicable.json")
+    if os.path.exists(p):
+        na_reasons = json.load(open(p))
+    hooks_p = os.path.join(HERE, "tools", "hooks.json")
+    hook_commits = json.load(open(hooks_p)) if os.path.exists(hooks_p) else []
+    for pid in IDS:
+        mp = os.path.join(META, pid + ".json")
+        if not (os.path.exists(mp) and os.path.exists(os.path.join(HERE, "lenaverif", "props", pid.lower() + ".py"))):
+            continue
+        m = json.load(open(mp))
+        claimed.append(pid)
         checks.append({
             "property_id": pid,
             "quick_cmd": "./check %s --tier quick" % pid,
@@ -52,11 +33,12 @@ def main():
             "evidence_file": "evidence/%s.json" % pid,
             "replay_cmd_template": "./check %s --replay {path}" % pid,
             "engine": "tlc+replay",
-            "level_claimed": {"category": "model_checking", "text": text, "design_ref": ref},
-            "level_note": note,
-            "technique": tech,
+            "level_claimed": {"category": m.get("category", "model_checking"), "text": m["level_text"],
+                              "design_ref": m.get("design_ref", "DESIGN.md 5 " + pid)},
+            "level_note": m["level_note"],
+            "technique": m["technique"],
         })
-    na = [{"property_id": pid, "reason": NOT_YET} for pid in sorted(TITLES) if pid not in CHECKS]
+    na = [{"property_id": pid, "reason": na_reasons.get(pid, NOT_YET)} for pid in IDS if pid not in claimed]
     man = {
         "version": 1,
         "setup_cmd": "sh tools/setup.sh",
@@ -65,22 +47,24 @@ def main():
             "enable": "no source hooks: the harness observes lena from outside (instrumented iterators, tagged elements, "
                       "audit hooks, stub converters); LENA_REPO selects the tree (default /repo)",
             "baseline_off_cmd": "cd /repo && /venv/bin/python -m pytest -ra -q -p no:cacheprovider --timeout=900 --continue-on-collection-errors",
-            "source_commits": [],
+            "source_commits": hook_commits,
             "add_only": True,
         },
         "engines": [{
             "name": "tlc+replay", "path": "lenaverif/",
-            "serves_properties": sorted(CHECKS),
+            "serves_properties": claimed,
             "kind_free_text": "TLA+ specifications in spec/ checked with TLC 1.8; behaviours exported as JSON and replayed on the "
                               "real lena objects (spec->code); behaviour recorded from lena validated by Trace_*.tla (code->spec)",
         }],
         "checks": checks,
-        "not_applicable": na,
         "notes": "All checks run with /venv/bin/python against $LENA_REPO (default /repo) working tree; nothing is compiled.",
     }
+    if na:
+        man["not_applicable"] = na
     with open(os.path.join(HERE, "MANIFEST.json"), "w") as f:
         json.dump(man, f, indent=1)
     print("MANIFEST.json: %d checks, %d not_applicable" % (len(checks), len(na)))
+
 
 if __name__ == "__main__":
     main()
